@@ -6,12 +6,12 @@ import (
 	"fmt"
 	"io"
 	"os"
-	"time"
+	"sort"
 
 	"k8s.io/klog/v2"
 
-	"verif/mc/clustermc"
-	"verif/mc/families"
+	_ "verif/mc/checks"
+	"verif/mc/registry"
 )
 
 func main() {
@@ -30,19 +30,24 @@ func main() {
 	klog.SetOutput(io.Discard)
 	klog.LogToStderr(false)
 
-	if *replay != "" {
-		os.Exit(doReplay(id, *replay))
-	}
-	cm := map[string]func() *clustermc.Family{
-		"C01": families.C01,
-	}
-	if f, ok := cm[id]; ok {
-		fam := f()
-		budget := 150 * time.Second
-		if *tier == "thorough" {
-			budget = 25 * time.Minute
+	if id == "list" {
+		ids := []string{}
+		for k := range registry.Checks {
+			ids = append(ids, k)
 		}
-		os.Exit(clustermc.RunFamily(fam, clustermc.RunOpts{Tier: *tier, Budget: budget, Rule: families.Rule(id)}))
+		sort.Strings(ids)
+		fmt.Println(ids)
+		return
+	}
+	if *replay != "" {
+		if f, ok := registry.Replays[id]; ok {
+			os.Exit(f(*replay))
+		}
+		fmt.Fprintf(os.Stderr, "no replay for %s\n", id)
+		os.Exit(2)
+	}
+	if f, ok := registry.Checks[id]; ok {
+		os.Exit(f(*tier))
 	}
 	fmt.Fprintf(os.Stderr, "unknown property %s\n", id)
 	os.Exit(2)
@@ -56,9 +61,4 @@ func flagSet(fs *flag.FlagSet, name string) bool {
 		}
 	})
 	return set
-}
-
-func doReplay(id, path string) int {
-	fmt.Fprintln(os.Stderr, "replay not wired yet")
-	return 2
 }
